@@ -2,7 +2,7 @@ SPEC = {
     "id": "C02",
     "level": "proof",
     "lean_modules": ["PallasVerif.Props.C02"],
-    "required_theorems": ["dec_total", "dec_total_single", "call_safe", "pos_le_len", "decode_list_with_total",
+    "required_theorems": ["dec_total", "dec_total_single", "call_safe", "pos_le_len", "decode_list_with_total", "decode_top_total",
                           "orig_bool_panics", "orig_word_panics", "orig_bits8_zero_panics"],
     "streams": [{"name": "flatdec", "quick": 1500, "thorough": 40000}],
     "rule": "a case loads a byte string (all strings of length <= 1 in quick / <= 2 in thorough exhaustively, runs of 0xff/0x80, "
